@@ -164,6 +164,16 @@ CLAIMS = {
              "reference-counting wait tree, isolation, critical tasks and pool relocation are not modelled (real-thread oracles only). 'The waiter sees all writes' is checked by reading counters after the wait, "
              "not proved (memory model not formalised).",
         ref="4/C01"),
+    "C03": dict(
+        technique="Coq proof: inductive invariant over all interleavings (any number of tasks, any subset of throwing bodies) of the exception-capture protocol of one task_group_context; "
+                  "real-thread oracle runs over nine constructs",
+        text="Proved: when the waiting call leaves its wait with result r, every task of the group has finished or was skipped; r names a task that really ran and threw; r <> 0 whenever some body threw "
+             "(nothing is swallowed); while the wait is pending at most one exception is captured (one winner of the cancellation exchange, my_exception written once); after the reset the group is not "
+             "cancelled, holds no exception and has no outstanding reference. Oracle runs (task_group, parallel_for/reduce/for_each/invoke, pipeline, flow graph, task_arena::execute, nested): exactly one "
+             "exception reaches the caller iff a body threw, it is one that was thrown, no body is running then and none starts afterwards, functor copies are destroyed once, the object is reusable.",
+        note="PARTIAL: the correspondence between model and code is outcome-level only (the dispatch loop cannot be driven step by step without the scheduler); context trees are covered by C04; "
+             "exception_ptr allocation, the algorithm-specific cancellation paths, flow-graph/pipeline internals and destruction of the library's own task objects are covered by the oracle runs only.",
+        ref="4/C03"),
     "C20": dict(
         technique="Coq proof: exact characterisation of the reachable configurations of the suspend/resume handshake (inductive invariant, all interleavings); real suspend/resume runs with racing resumers under an exactly-once oracle",
         text="For every interleaving of the suspending thread's exchange(suspended)/self-resume with a resume() from anywhere (incl. the suspend callback itself): at most one resume task is pushed, "
